@@ -87,7 +87,8 @@ class Renames:
         except OSError:
             digests = {}
         baseline = set(digests.pop('*functions', {}))
-        digests.pop('*vocab', None)
+        vocab = digests.pop('*vocab', None) or {}
+        self.absorbed = {}
         digests.pop('*defaults', None)
         # (the model's own rename aliases make old keys answer too: look at the real table)
         orphans = {k: d for k, d in digests.items() if not dict.__contains__(model.funcs, k)}
@@ -126,9 +127,60 @@ class Renames:
                         ck = self.map.get(caller, caller)
                         if ck in table_funcs and caller.split(':')[0] == f.key.split(':')[0]:
                             self.map[f.key] = ck
+        try:
+            self._find_absorbed(model, vocab)
+        except Exception:
+            self.absorbed = {}
 
     def key(self, k):
         return self.map.get(k, k)
+
+    def keys(self, k):
+        """All the keys under which reasons for function k may be filed: its own (after renames) and those of functions of the
+        reviewed tree that have since been folded into it (inline-and-delete)."""
+        own = self.map.get(k, k)
+        return [own] + [v for v in self.absorbed.get(k, []) if v != own]
+
+    def _find_absorbed(self, model, vocab):
+        """A function of the reviewed tree is gone (not renamed) and a surviving function of its module has GAINED most of its
+        vocabulary since: its body was folded into that function, and its reason entries go with it."""
+        self.absorbed = {}
+        if not vocab:
+            return
+        present = set(dict.keys(model.funcs))
+        renamed_old = set(getattr(model, 'renamed', {}).keys()) | set(self.map.values())
+        trivial = {'self', 'cls', 'None', 'True', 'False', '0', '1', 'len'}
+        cur = {}
+        for f in model.funcs.values():
+            if f.parent is None:
+                out = set()
+                for x in ast.walk(f.node):
+                    if x is f.node:
+                        continue
+                    if isinstance(x, ast.Name):
+                        out.add(x.id)
+                    elif isinstance(x, ast.Attribute):
+                        out.add(x.attr)
+                    elif isinstance(x, ast.Constant) and not (isinstance(x.value, str) and len(x.value) > 20):
+                        out.add(repr(x.value))
+                cur[f.key] = out
+        import re as _re
+        strip = lambda t: _re.sub(r'^_inl\d+_', '', t)
+        for old, val in vocab.items():
+            if old in present or old in renamed_old:
+                continue
+            words, params = val[1], (val[2] if len(val) > 2 else [])
+            # identifiers only (string pieces are cut differently once a constant argument has been substituted); the helper's own
+            # parameters are gone after the folding (replaced by the arguments)
+            w = {t for t in words if t.isidentifier()} - trivial - set(params)
+            if len(w) < 2:
+                continue
+            for k, now in cur.items():
+                if k not in vocab:
+                    continue
+                gained = {strip(t) for t in now} - set(vocab[k][1])
+                if len(gained & w) / len(w) >= 0.6:
+                    self.absorbed.setdefault(k, []).append(old)
 
 
 def _root(f):
